@@ -96,6 +96,21 @@ def main():
         if b is None or "theHandler.postConstruction( constructionContext, false, getElementName(), &theParentHandler);" not in norm(b):
             errs.append("ElemAttribute::namespacesPostConstruction not recognised")
     flags["attrNoAlias"] = has_override
+    en = open(os.path.join(REPO, "src/xalanc/XSLT/XSLTEngineImpl.cpp"), encoding="utf-8", errors="replace").read()
+    k = en.find("case XalanNode::ATTRIBUTE_NODE:")
+    k2 = en.find("case XalanNode::COMMENT_NODE:", k)
+    if k < 0 or k2 < 0:
+        errs.append("XSLTEngineImpl::cloneToResultTree: ATTRIBUTE_NODE case not found")
+    else:
+        n = norm(en[k:k2])
+        old = "if (isElementPending() == true) { addResultAttribute( getPendingAttributesImpl(), node.getNodeName(), node.getNodeValue(), true, locator); } else" in n
+        new = ("theBoundNamespace = getResultNamespaceForPrefix(thePrefix); if (theBoundNamespace == 0) { createAndAddNamespaceResultAttribute( *m_executionContext, thePrefix, theAttributeNamespace); }" in n
+               and "if (theBoundNamespace == 0 || *theBoundNamespace == theAttributeNamespace)" in n
+               and "getResultPrefixForNamespace(theAttributeNamespace); if (theOtherPrefix != 0 && theOtherPrefix->empty() == false)" in n
+               and "createFixedUpResultAttribute( *m_executionContext, node.getLocalName(), theAttributeNamespace, node.getNodeValue());" in n)
+        if old == new:
+            errs.append("XSLTEngineImpl::cloneToResultTree: ATTRIBUTE_NODE case not recognised")
+        flags["copyAttrNs"] = new
     if errs:
         print("\n".join(errs))
         return 1
